@@ -7,7 +7,7 @@ import build as B
 import nav_hist as NH
 import common as H
 from common import Case
-from props.C15 import call, onat, bl
+from props.C15 import call as _call, onat, bl
 
 
 #: cross-tree pair queries are asked for trees up to this size
@@ -210,6 +210,19 @@ class Prop:
             yield dict(desc, nodes=nodes)
 
     def run(self, desc) -> Case:
+        if "hist" not in desc:
+            return self._run(desc)
+        try:
+            return self._run(desc)
+        except Exception as e:  # noqa: BLE001 - the node graph reached through the history cannot even be observed
+            import traceback
+            where = traceback.extract_tb(e.__traceback__)[-1]
+            return Case(desc=desc, coq_input="[]", impl_obs=[-424242], nontrivial=True,
+                        oracle_fail=f"the tree reached through the history cannot be observed: {type(e).__name__}: {e} "
+                                    f"(at {where.filename.rsplit('/', 1)[-1]}:{where.lineno})",
+                        key=H.digest([desc["nodes"], desc.get("hist"), "unobservable"]), stats=dict(nodes=0))
+
+    def _run(self, desc) -> Case:
         hist_fail = None
         try:
             if "hist" in desc:
@@ -290,6 +303,7 @@ class Prop:
             return [lid(y) for y in x]
 
         typed = bool(desc.get("typed"))
+        call, battery_changed_tree = NH.guarded_call(tree, _call)     # the structure is re-read after every single query
         # TypedNode overrides the child / sibling accessors with a mandatory kind / an any_kind flag (default False);
         # the plain relationship queries of a typed tree are their ANY_KIND / any_kind=True forms
         KA = (H.ANY_KIND,) if typed else ()
@@ -364,7 +378,7 @@ class Prop:
                         if r is not None:
                             cross.append([i + 1, j + 1, code])
         obs = [per_node, pairs, num(call(lambda: tree.calc_height())), tree_obs, cross]
-        fail = self.oracle(tree, nodes, obs, lid)
+        fail = battery_changed_tree() or self.oracle(tree, nodes, obs, lid) or (NH.typed_consistency(tree) if typed else None)
         coq_in = re.sub(r"\(Tz (\d+) ", lambda m: f"(Tz {local[int(m.group(1))]} ", H.coq_forest(tree._root, U))
         return obs, fail, nodes, coq_in
 
